@@ -43,7 +43,7 @@ PROJECTS = ["udt", "usdt", "tb_simple", "uncertainty", "uncertainty_low", "hiv",
 def budget(tier):
     if tier == "thorough":
         return {"runs": 6000, "wall": 1500, "chunk": 4, "minimise_s": 120}
-    return {"runs": 480, "wall": 170, "chunk": 4, "minimise_s": 45}
+    return {"runs": 600, "wall": 250, "chunk": 4, "minimise_s": 45}
 
 
 def prepare(tier):
